@@ -707,6 +707,12 @@ func TestCheck(t *testing.T) {
 	for iat := 0; iat < 2; iat++ {
 		for _, biased := range []bool{false, true} {
 			iat, biased := iat, biased
+			for k := 0; k < r.Pick(3, 24); k++ {
+				k := k
+				r.Bubble(fmt.Sprintf("freq-small-table/iat%d/b%v/%03d", iat, biased, k), func(c *mon.Case) {
+					freqConn(c, r, dir, params{iat: iat, biased: biased, shape: "small-table", seed: r.Sub("freq-small", iat, biased, k)})
+				})
+			}
 			for k := 0; k < r.Pick(2, 24); k++ {
 				k := k
 				r.Bubble(fmt.Sprintf("freq/iat%d/b%v/%03d", iat, biased, k), func(c *mon.Case) {
